@@ -100,8 +100,10 @@ class ConnectionWorld(World):
                                 "param": ro.choice(["weight", "weight", "delay"])})
                 elif k < 0.9:
                     ops.append({"op": "assign_delay", "delay_k": self._delay_pattern(ro, nsyn, cfg.get("kmax", 1), prop, allow_diag=True)})
-                else:
+                elif k < 0.95:
                     ops.append({"op": "roundtrip", "seed": ro.randrange(1 << 30)})
+                else:
+                    ops.append({"op": "receptive", "seed": ro.randrange(1 << 30)})
             else:
                 if ro.random() < 0.5:
                     ops.append({"op": "assign_delay", "delay_k": self._delay_pattern(ro, nsyn, cfg["kmax"], prop)})
@@ -340,6 +342,42 @@ class ConnectionWorld(World):
                 if tuple(y.shape) != tuple(x.shape) or not torch.allclose(y[cover], x[cover], atol=1e-5):
                     ctx.fail("layout_roundtrip", facts, "like_input(like_synaptic(x)) != x on positions the connection reads")
                 ctx.probe("layout_roundtrip")
+            elif name == "receptive":
+                # pre / post receptive views broadcast against the weight as documented: view[b, <weight index>, r] is the
+                # pre- (post-) synaptic value feeding that synapse at receptive position r
+                g = torch.Generator().manual_seed(op["seed"])
+                B = cfg["B"]
+                xin = torch.randint(1, 50, (B,) + tuple(cfg["inshape"]), generator=g).float()
+                yout = torch.randint(1, 50, (B,) + tuple(cfg["outshape"]), generator=g).float()
+                with ctx.impl("receptive views", facts):
+                    xs = conn.like_synaptic(xin)
+                    pre = conn.presyn_receptive(xs)
+                    post = conn.postsyn_receptive(yout)
+                    prod = (pre * post).sum(-1)
+                ctx.judged += 1
+                wshape = tuple(conn.weight.shape)
+                if tuple(prod.shape[1:]) != wshape or prod.shape[0] != B:
+                    ctx.fail("receptive_broadcast", facts, f"pre x post receptive views reduce to shape {tuple(prod.shape)}, expected (B, *weight.shape) = {(B,) + wshape}")
+                else:
+                    pre_b = _f64(pre.expand(*[max(a_, b_) for a_, b_ in zip(pre.shape, post.shape)]))
+                    post_b = _f64(post.expand(*[max(a_, b_) for a_, b_ in zip(pre.shape, post.shape)]))
+                    xs64, y64 = _f64(xs), _f64(yout)
+                    if ck in ("dense", "lateral"):
+                        want_pre = np.broadcast_to(xs64.reshape(B, 1, -1, 1), pre_b.shape)
+                        want_post = np.broadcast_to(y64.reshape(B, -1, 1, 1), post_b.shape)
+                    elif ck == "direct":
+                        want_pre = np.broadcast_to(xs64.reshape(B, -1, 1), pre_b.shape)
+                        want_post = np.broadcast_to(y64.reshape(B, -1, 1), post_b.shape)
+                    else:
+                        kk = cfg["kernel"] if isinstance(cfg["kernel"], list) else [cfg["kernel"]] * 2
+                        L = xs64.shape[-1]
+                        want_pre = np.broadcast_to(xs64.reshape(B, 1, cfg["C"], kk[0], kk[1], L), pre_b.shape)
+                        want_post = np.broadcast_to(y64.reshape(B, cfg["F"], 1, 1, 1, L), post_b.shape)
+                    if not np.array_equal(pre_b, want_pre):
+                        ctx.fail("receptive_values", dict(facts, view="pre"), "presyn_receptive does not place each presynaptic value at its synapse / receptive position")
+                    if not np.array_equal(post_b, want_post):
+                        ctx.fail("receptive_values", dict(facts, view="post"), "postsyn_receptive does not place each postsynaptic value at its synapse / receptive position")
+                ctx.probe("receptive_views")
             ctx.state((ck, sk, hash((tuple(cfg["inshape"]), tuple(cfg["outshape"]))) & 0xFFFF, delays_zero, min(len(events), 4), name))
         ctx.nontrivial = nsp >= 2
 
